@@ -14,11 +14,11 @@ from .worlds import World, build_sim, make_config, make_env, mk_station, mk_vehi
 class FifoWorld(World):
     name = "W-fifo"
 
-    def __init__(self, plugs=("DCFC",), small: bool = False, pairs: bool = True, name: str = "", full_v1: bool = False, t0: bool = False, midnight: bool = False, fleets: bool = False, human: int = 0):
+    def __init__(self, plugs=("DCFC",), small: bool = False, pairs: bool = True, name: str = "", full_v1: bool = False, t0: bool = False, midnight: bool = False, fleets: bool = False, human: int = 0, home_at_station: bool = False):
         super().__init__()
         self.pairs = pairs
         self.name = name or ("W-fifo" + ("/2plugs" if len(plugs) > 1 else "") + ("/small" if small else "") + ("/full-arrival" if full_v1 else "") + ("/t0" if t0 else "")
-                             + ("/midnight" if midnight else "") + ("/fleets" if fleets else "") + (f"/human-off-after-{human}" if human else ""))
+                             + ("/midnight" if midnight else "") + ("/fleets" if fleets else "") + (f"/human-off-after-{human}" if human else "") + ("/home-at-station" if home_at_station else ""))
         S = sites()
         # t0: no early unplugging by the driver (soc limit 1.0), so that a charging vehicle leaves through the default
         # transition of the update phase when its battery is full (power-curve branch stops just below capacity)
@@ -53,7 +53,8 @@ class FifoWorld(World):
             from .worlds import mk_base
 
             v1 = mk_vehicle(env, rn, "v1", S["N2"], "quiet", soc=0.3, schedule_id="early", home_base_id="hb")
-            bases = (mk_base(rn, "hb", S["F1"], stalls=1, station_id=None),)
+            # home_at_station: the driver's home base stands on the station's cell and is served by that very station
+            bases = (mk_base(rn, "hb", S["A"], stalls=1, station_id="s0"),) if home_at_station else (mk_base(rn, "hb", S["F1"], stalls=1, station_id=None),)
         if t0:
             # an initial layout at simulation time 0, built with the activities' own public enter():
             # v9 charging, v5 standing at the station and already queueing since t = 0
